@@ -38,7 +38,7 @@ enum Opc { CFG, RT, YIELD, WAIT, SEND, RECV, LOCK, UNLOCK, ACQ, REL, BWAIT, BPOS
 const char *kOpNames[NOPS] = {"cfg", "rt", "yield", "wait", "send", "recv", "lock", "unlock", "acquire", "release", "bwait", "bpost",
                               "cadd", "cwait", "cpost", "join", "create", "cancel", "end",
                               "mrun", "mpass", "mresume", "mcancel", "mcleanup", "msend", "mrelease", "mbpost", "mcpost", "mcreate"};
-const int kArity[NOPS] = {7, 2, 1, 1, 2, 2, 2, 2, 2, 2, 1, 1, 2, 1, 2, 2, 3, 2, 1,
+const int kArity[NOPS] = {7, 3, 1, 1, 2, 2, 2, 2, 2, 2, 1, 1, 2, 1, 2, 2, 3, 2, 1,
                           0, 1, 1, 1, 0, 1, 1, 0, 1, 2};
 const size_t kStack = 256 * 1024;
 const int kMaxR = 6, kMaxObj = 2, kCondVals = 4;
@@ -55,6 +55,8 @@ struct Step { int code, a, b; };
 struct RState {
   std::vector<Step> script;
   int mode = 0;                  // 0 created by main at start (run_now), 1 created by main suspended, 2 created only by a create step
+  int style = 0;                 // 0 polls isCanceled() before every step; 1 never polls, returns when a blocking call fails; 2 / 3 never polls and
+                                 // tries 1 / 2 more blocking steps after a failed one before it gives up (all legal: only a FAILED call obliges to return)
   bool created = false, started = false, ended = false, cancel_req = false, tainted = false;
   RoutineToken tok;
   int call = NONE, obj = -1;     // blocking call the routine is inside of
@@ -86,7 +88,7 @@ struct Ctx {
   bool unlock_pending[kMaxObj] = {false, false};
   CaseInfo *info = nullptr;
   std::string err;
-  bool cleaned = false, requeued = false;
+  bool cleaned = false, requeued = false, in_cleanup = false;
   int idle_checks = 0;
   void fail(const std::string &m) { if (err.empty()) err = m; }
 };
@@ -182,18 +184,39 @@ void do_cpost(Ctx &c, int by, int v) {
 }
 
 // ---- routine side ------------------------------------------------------------------------------------------------
-// returns false when the routine's entry function has to return (cancelled / failed blocking call / end)
-bool exec_step(Ctx &c, int r, Scheduler &sch, const Step &st) {
+enum { ST_STOP = 0, ST_OK = 1, ST_FAIL = 2, ST_REFUSED = 3 };   // ST_FAIL: blocking call failed (cancelled); ST_REFUSED: cond.wait / join said no to a routine that is not cancelled
+
+// A blocking call is being entered by a routine that has already been cancelled (only routines that do not poll isCanceled() get here).
+// would_suspend: the call would have to suspend the routine if it were not cancelled.
+void enter_cancelled(Ctx &c, bool pre, bool would_suspend) {
+  if (pre && would_suspend) c.info->cls(c.in_cleanup ? "blocking_call_entered_during_cleanup" : "blocking_call_entered_after_cancellation");
+}
+// ... and has returned.  If it suspended the routine and something (cleanup(), a stale token, the ready queue after a self-cancel) woke it again,
+// the call still "returned with failure" in the end, so that is only counted; a routine that stays suspended is caught by the idle check
+// ("was cancelled but has not terminated").
+void leave_cancelled(Ctx &c, int r, bool pre, bool blocked, const char *what) {
+  (void)r; (void)what;
+  if (pre && blocked) c.info->cls("call_entered_after_cancellation_suspended_then_woken");
+}
+
+int exec_step(Ctx &c, int r, Scheduler &sch, const Step &st) {
   RState &R = c.R[r];
+  bool pre = false;   // cancelled before the call (harness-side peek; the script itself only looks at it in style 0)
   switch (st.code) {
-    case YIELD: begin_call(c, R, C_YIELD, -1); sch.yield(); end_call(c, R); return true;
-    case WAIT:  begin_call(c, R, C_WAIT, -1); sch.wait(); end_call(c, R); return true;
-    case SEND: do_send(c, r, st.a % c.nch); return true;
+    case YIELD: begin_call(c, R, C_YIELD, -1); sch.yield(); end_call(c, R); return ST_OK;
+    case WAIT: {
+      pre = sch.isCanceled(); enter_cancelled(c, pre, true);
+      begin_call(c, R, C_WAIT, -1); sch.wait(); bool blocked = end_call(c, R);
+      leave_cancelled(c, r, pre, blocked, "wait()");
+      return ST_OK; }
+    case SEND: do_send(c, r, st.a % c.nch); return ST_OK;
     case RECV: {
       int k = st.a % c.nch, out = -1;
+      pre = sch.isCanceled(); enter_cancelled(c, pre, c.mq[k].empty());
       begin_call(c, R, C_RECV, k); uint64_t sq = R.call_seq;
       bool ok = (*c.ch[k] >> out);
       bool blocked = end_call(c, R);
+      leave_cancelled(c, r, pre, blocked, "recv");
       c.burst_ch[k] = 0;
       if (ok) {
         if (R.must_fail_seq == sq) c.fail(fmt("routine %d was cancelled while suspended in recv(ch%d), but the call returned success", r, k));
@@ -204,15 +227,17 @@ bool exec_step(Ctx &c, int r, Scheduler &sch, const Step &st) {
         }
         c.rcvd[k]++;
         if (blocked) c.info->cls("recv_blocked_then_served");
-        return true;
+        return ST_OK;
       }
       if (!sch.isCanceled()) c.info->cls("recv_failed_without_cancel");
-      return false; }
+      return ST_FAIL; }
     case LOCK: {
       int k = st.a % c.nmx;
+      pre = sch.isCanceled(); enter_cancelled(c, pre, c.holder[k] >= 0 && c.holder[k] != r);
       begin_call(c, R, C_LOCK, k); uint64_t sq = R.call_seq;
       bool ok = c.mx[k]->lock();
       bool blocked = end_call(c, R);
+      leave_cancelled(c, r, pre, blocked, "lock");
       if (ok) {
         if (R.must_fail_seq == sq) c.fail(fmt("routine %d was cancelled while suspended in lock(m%d), but the call returned success", r, k));
         if (c.holder[k] >= 0 && c.holder[k] != r) c.fail(fmt("mutual exclusion broken: lock(m%d) succeeded for routine %d while routine %d holds it", k, r, c.holder[k]));
@@ -220,22 +245,24 @@ bool exec_step(Ctx &c, int r, Scheduler &sch, const Step &st) {
         if (c.unlock_pending[k] && !blocked) c.info->cls("mutex_retaken_before_woken_waiter_ran");
         if (blocked) { c.unlock_pending[k] = false; c.info->cls("lock_blocked_then_served"); }
         c.holder[k] = r;
-        return true;
+        return ST_OK;
       }
       if (!sch.isCanceled()) c.info->cls("lock_failed_without_cancel");
-      return false; }
+      return ST_FAIL; }
     case UNLOCK: {
       int k = st.a % c.nmx;
       ++c.marks;
       if (c.holder[k] == r) { c.holder[k] = -1; if (waiters(c, C_LOCK, k, r) >= 1) c.unlock_pending[k] = true; }
       else c.info->cls("unlock_by_non_holder");
       c.mx[k]->unlock();
-      return true; }
+      return ST_OK; }
     case ACQ: {
       int k = st.a % c.nsem;
+      pre = sch.isCanceled(); enter_cancelled(c, pre, c.count[k] <= 0);
       begin_call(c, R, C_ACQ, k); uint64_t sq = R.call_seq;
       bool ok = c.sem[k]->acquire();
       bool blocked = end_call(c, R);
+      leave_cancelled(c, r, pre, blocked, "acquire");
       c.burst_sem[k] = 0;
       if (ok) {
         if (R.must_fail_seq == sq) c.fail(fmt("routine %d was cancelled while suspended in acquire(s%d), but the call returned success", r, k));
@@ -243,42 +270,52 @@ bool exec_step(Ctx &c, int r, Scheduler &sch, const Step &st) {
         else c.count[k]--;
         c.acqs[k]++;
         if (blocked) c.info->cls("acquire_blocked_then_served");
-        return true;
+        return ST_OK;
       }
       if (!sch.isCanceled()) c.info->cls("acquire_failed_without_cancel");
-      return false; }
-    case REL: do_release(c, r, st.a % c.nsem); return true;
+      return ST_FAIL; }
+    case REL: do_release(c, r, st.a % c.nsem); return ST_OK;
     case BWAIT: {
+      pre = sch.isCanceled(); enter_cancelled(c, pre, true);
       begin_call(c, R, C_BWAIT, 0); uint64_t sq = R.call_seq;
       bool ok = c.bc->wait();
-      end_call(c, R);
+      bool blocked = end_call(c, R);
+      leave_cancelled(c, r, pre, blocked, "bcast.wait");
+      if (pre && ok) c.fail(fmt("routine %d entered bcast.wait after it had been cancelled and the call reported success", r));
       if (ok && R.owed_b) c.info->cls("bcast_wait_released_by_post");
       R.owed_b = false;
       if (ok && R.must_fail_seq == sq) c.fail(fmt("routine %d was cancelled while suspended in bcast.wait, but the call returned success", r));
-      return ok; }
-    case BPOST: do_bpost(c, r); return true;
-    case CADD: ++c.marks; c.cond->add(st.a % kCondVals); c.mset.insert(st.a % kCondVals); return true;
+      return ok ? ST_OK : ST_FAIL; }
+    case BPOST: do_bpost(c, r); return ST_OK;
+    case CADD: ++c.marks; c.cond->add(st.a % kCondVals); c.mset.insert(st.a % kCondVals); return ST_OK;
     case CWAIT: {
       bool accept = c.cw < 0 && !c.mset.empty();
       if (accept) c.cw = r;
+      pre = sch.isCanceled(); enter_cancelled(c, pre, accept);
       begin_call(c, R, C_CWAIT, 0); uint64_t sq = R.call_seq;
       bool ok = c.cond->wait();
       bool blocked = end_call(c, R);
+      leave_cancelled(c, r, pre, blocked, "cond.wait");
+      if (pre && ok && accept) c.fail(fmt("routine %d entered cond.wait after it had been cancelled and the call reported success", r));
       if (ok && R.owed_c) c.info->cls("cond_wait_released_by_post");
       R.owed_c = false;
-      if (c.cw == r) { c.cw = -1; if (blocked || ok) c.mset.clear(); }   // a refused wait() leaves the condition set alone
+      // a refused wait() leaves the condition set alone; an accepted one that ends (satisfied elsewhere excepted) withdraws it — also
+      // when the routine was cancelled already and the accepted wait() fails at once
+      if (c.cw == r) { c.cw = -1; if (blocked || ok || pre) c.mset.clear(); }
       if (ok && R.must_fail_seq == sq) c.fail(fmt("routine %d was cancelled while suspended in cond.wait, but the call returned success", r));
-      if (!ok && !sch.isCanceled()) { c.info->cls("cond_wait_refused"); return true; }
-      return ok; }
-    case CPOST: do_cpost(c, r, st.a % kCondVals); return true;
+      if (!ok && !sch.isCanceled()) { c.info->cls("cond_wait_refused"); return ST_REFUSED; }
+      return ok ? ST_OK : ST_FAIL; }
+    case CPOST: do_cpost(c, r, st.a % kCondVals); return ST_OK;
     case JOIN: {
       int t = st.a % c.nr; if (t == r) t = (t + 1) % c.nr;
       RState &T = c.R[t];
       bool ended_before = T.created && T.ended;
+      pre = sch.isCanceled(); if (pre) c.info->cls("join_entered_after_cancellation");
       begin_call(c, R, C_JOIN, t); uint64_t sq = R.call_seq;
       bool ok = sch.join(T.created ? T.tok : RoutineToken());
       bool blocked = end_call(c, R);
       bool canceled = sch.isCanceled();
+      leave_cancelled(c, r, pre, blocked, "join");
       if (ok && R.must_fail_seq == sq) c.fail(fmt("routine %d was cancelled while suspended in join(%d), but the call returned success", r, t));
       // a target that was cancelled before it ever ran may be run once (cancelled) or removed directly: the value join() then reports is left free
       bool removed_unstarted = T.created && T.cancel_req && !T.started;
@@ -287,22 +324,33 @@ bool exec_step(Ctx &c, int r, Scheduler &sch, const Step &st) {
       if (ok && blocked) c.info->cls("join_blocked_until_target_finished");
       if (blocked && T.cancel_req && !canceled) c.info->cls("join_released_by_cancel_of_target");
       if (ended_before) c.info->cls(ok ? "join_of_finished_target_true" : "join_of_finished_target_false");
-      if (!ok && !canceled) { c.info->cls("join_refused"); return true; }
-      return ok; }
-    case CREATE: if (!c.R[st.a % c.nr].created) { c.info->cls("create_from_routine"); do_create(c, st.a % c.nr, st.b & 1); } return true;
-    case CANCEL: if (st.a % c.nr == r) c.info->cls("cancel_self"); do_cancel(c, r, st.a % c.nr); return true;
-    case END: return false;
+      if (!ok && !canceled) { c.info->cls("join_refused"); return ST_REFUSED; }
+      return ok ? ST_OK : ST_FAIL; }
+    case CREATE:
+      // domain restriction: a routine that has been cancelled does not create routines any more (inside cleanup() that would add routines
+      // to the table cleanup() is iterating over, and they would be started un-cancelled)
+      if (sch.isCanceled()) { c.info->cls("create_skipped_in_cancelled_routine"); return ST_OK; }
+      if (!c.R[st.a % c.nr].created) { c.info->cls("create_from_routine"); do_create(c, st.a % c.nr, st.b & 1); }
+      return ST_OK;
+    case CANCEL: if (st.a % c.nr == r) c.info->cls("cancel_self"); do_cancel(c, r, st.a % c.nr); return ST_OK;
+    case END: return ST_STOP;
   }
-  return true;
+  return ST_OK;
 }
 
 void routine_main(Ctx *cp, int r, Scheduler &sch) {
   Ctx &c = *cp; RState &R = c.R[r];
   R.started = true; ++c.marks;
   if (!sch.getToken().equal(R.tok) && !R.tok.isNull()) c.fail(fmt("getToken() inside routine %d differs from the token returned by create()", r));
+  int giveup = R.style >= 2 ? R.style - 1 : 0;   // failed blocking calls a non-polling routine shrugs off before it gives up
   for (size_t pc = 0; pc < R.script.size(); ++pc) {
-    if (sch.isCanceled()) break;
-    if (!exec_step(c, r, sch, R.script[pc])) break;
+    if (R.style == 0 && sch.isCanceled()) break;
+    int res = exec_step(c, r, sch, R.script[pc]);
+    if (res == ST_STOP) break;
+    if (res == ST_FAIL || (res == ST_REFUSED && R.style != 0)) {   // a routine that does not poll cannot tell "refused" from "cancelled"
+      if (R.style == 0 || giveup-- <= 0) break;
+      c.info->cls("routine_continues_after_failed_blocking_call");
+    }
   }
   if (R.cancel_req && !sch.isCanceled()) c.fail(fmt("routine %d was cancelled but isCanceled() is false inside it", r));
   R.ended = true; R.call = NONE; ++c.marks;
@@ -353,7 +401,9 @@ void do_cleanup(Ctx &c) {
   if (blocked >= 1) c.info->cls("cleanup_with_blocked_routines");
   if (blocked >= 3) c.info->cls("cleanup_with_three_or_more_blocked");
   if (ready_or_new) c.info->cls("cleanup_with_unstarted_routines");
+  c.in_cleanup = true;
   c.sch->cleanup();
+  c.in_cleanup = false;
   c.cleaned = true;
   for (int r = 0; r < c.nr; ++r) {
     RState &R = c.R[r];
@@ -437,7 +487,7 @@ std::string run(const Scenario &s, CaseInfo &info) {
     }
   }
   for (const Op &op : s.ops) {
-    if (op.code == RT) { int r = (int)op.in(0, 0, c.nr - 1); if (!have_rt[r]) { have_rt[r] = true; c.R[r].mode = (int)op.in(1, 0, 2); } }
+    if (op.code == RT) { int r = (int)op.in(0, 0, c.nr - 1); if (!have_rt[r]) { have_rt[r] = true; c.R[r].mode = (int)op.in(1, 0, 2); c.R[r].style = (int)op.in(2, 0, 3); } }
     else if (op.code >= YIELD && op.code <= END) {
       int r = (int)op.in(0, 0, c.nr - 1);
       if ((int)c.R[r].script.size() < kMaxSteps) c.R[r].script.push_back(Step{op.code, (int)op.in(1, 0, 1023), (int)op.in(2, 0, 1023)});
@@ -471,7 +521,7 @@ std::string run(const Scenario &s, CaseInfo &info) {
   info.cls_if(c.idle_checks >= 3, "three_or_more_idle_checks");
   bool nt = false;
   for (auto p : info.classes)
-    if (!strcmp(p, "chan_two_waiters_two_posts") || !strcmp(p, "sem_two_waiters_two_posts") || !strcmp(p, "mutex_retaken_before_woken_waiter_ran") || !strcmp(p, "cancel_of_queued_waiter") || !strcmp(p, "cancel_of_unstarted_join_target")) nt = true;
+    if (!strcmp(p, "chan_two_waiters_two_posts") || !strcmp(p, "sem_two_waiters_two_posts") || !strcmp(p, "mutex_retaken_before_woken_waiter_ran") || !strcmp(p, "cancel_of_queued_waiter") || !strcmp(p, "cancel_of_unstarted_join_target") || !strcmp(p, "blocking_call_entered_after_cancellation")) nt = true;
   info.nontrivial = nt;
   // ---- tear down (cleanup() has run; nothing is left inside the scheduler)
   for (int i = 0; i < kMaxObj; ++i) { c.ch[i].reset(); c.mx[i].reset(); c.sem[i].reset(); }
@@ -521,11 +571,27 @@ Scenario expand(int64_t seed) {
     pj_who = pj_create == 2 ? (int)pick({{5, 1}, {1, 4}}) : (int)pick({{4, 1}, {4, 2}, {2, 3}, {1, 4}});   // 1 = routine cancels, 2 = main cancels, 3 = main resumes, 4 = nobody
   }
   for (int r = 0; r < n; ++r) {
-    mk(RT, {r, modes[r]});
+    int64_t style = pick({{5, 0}, {3, 1}, {3, 2}, {1, 3}});
+    mk(RT, {r, modes[r], style});
+    // a routine that does not poll isCanceled() often gets one more blocking step at its end: "blocks again after a blocking call failed / after
+    // it was cancelled while merely ready"
+    auto tail = [&] {
+      if (!style || rng(0, 1)) return;
+      if (rng(0, 2) == 0) mk(YIELD, {r});
+      switch (pick({{3, 0}, {2, 1}, {2, 2}, {2, 3}, {1, 4}, {2, 5}})) {
+        case 0: mk(RECV, {r, obj()}); break;
+        case 1: mk(ACQ, {r, obj()}); break;
+        case 2: mk(LOCK, {r, obj()}); break;
+        case 3: mk(BWAIT, {r}); break;
+        case 4: mk(CADD, {r, rng(0, 2)}); mk(CWAIT, {r}); break;
+        default: mk(WAIT, {r}); break;
+      }
+    };
     if (pjoin && r == 0) {
       if (pj_create) mk(CREATE, {r, pj_t, pj_rn});
       mk(JOIN, {r, pj_t});
       if (rng(0, 2) == 0) mk(YIELD, {r});
+      tail();
       continue;
     }
     if (pjoin && r == 1 && (pj_who == 1 || rng(0, 3) == 0)) {
@@ -536,6 +602,7 @@ Scenario expand(int64_t seed) {
     if (planned && r < pw) {
       mk(theme == T_CHAN ? RECV : ACQ, {r, po});
       if (rng(0, 3) == 0) mk(theme == T_CHAN ? RECV : ACQ, {r, po});
+      tail();
       continue;
     }
     if (planned && r == n - 1) {
@@ -601,6 +668,7 @@ Scenario expand(int64_t seed) {
         default: break;
       }
     }
+    tail();
   }
   // main-context script
   auto mrun = [&] { mk(MRUN, {}); };
@@ -634,7 +702,7 @@ SubDef def = [] {
   SubDef d; d.name = "coroutines";
   d.op_names.assign(kOpNames, kOpNames + NOPS);
   d.op_arity.assign(kArity, kArity + NOPS);
-  d.nt_rule = "two or more routines suspended on one channel / semaphore while two posts were issued before any of them ran, or a mutex re-taken between the unlock that woke a waiter and the waiter running, or a cancel of a routine queued in recv / lock / acquire, or a cancel of a never-started routine while another routine is suspended in join() on it";
+  d.nt_rule = "two or more routines suspended on one channel / semaphore while two posts were issued before any of them ran, or a mutex re-taken between the unlock that woke a waiter and the waiter running, or a cancel of a routine queued in recv / lock / acquire, or a cancel of a never-started routine while another routine is suspended in join() on it, or a blocking call that would have to suspend entered by a routine that had already been cancelled";
   d.run = run;
 #ifndef VERIF_ENGINE_FUZZ
   d.gen = [] {
